@@ -201,7 +201,9 @@ def run_case(case: dict) -> dict:
             # a foreign emitter), judged on each program's OWN build only
             for sub, w_, o_ in ((P, wp, tw.obs[1]), (Q, wq, tw.obs[2])):
                 if sub["family"] == "c06" and c06.known_crosstalk(
-                        w_, o_, sub["stmts"], list(_containers(sub, w_).values()), anchors=True):
+                        w_, o_, sub["stmts"], list(_containers(sub, w_).values()), anchors=True) and \
+                        __import__("factosim.static_trigger", fromlist=["x"]).crosstalk_possible(
+                            sub["stmts"], sub["inputs"]):
                     res["status"] = "excluded"
                     res["excluded_by"] = "crosstalk"
                     return res
